@@ -77,7 +77,7 @@ inductive Pc where
   | passiveWait             -- `_establish`: `while not self.proto: await sleep(0)`
   | connecting              -- awaiting `Protocol.connect()`
   | awaitOpen (c : Nat)     -- awaiting `read_open` on connection c (openwait timer running)
-  | awaitKa (c : Nat)       -- awaiting `read_keepalive` on connection c (no timer: F18)
+  | awaitKa (c : Nat)       -- awaiting `read_keepalive` on connection c (hold timer running since /repo 5dabac1)
   | mainLoop (c : Nat)      -- in `_main`, reading connection c between two iterations
 deriving DecidableEq, Repr
 
